@@ -11,7 +11,7 @@ from vt import detsched as ds
 
 HSM_FUNCS = ['next_rtc', '_print_spy_if_live', '_print_trace_if_live', '_append_queue_reflection_to_spy',
              'post_fifo', 'post_lifo', '_append_fifo_to_spy', '_append_lifo_to_spy', 'complete_circuit',
-             'defer', 'recall']
+             'defer', 'recall', '_append_recall_to_spy', '_append_defer_to_spy']
 
 
 def policy_for(rng, est_len=600, fair_suffix=True):
@@ -88,52 +88,18 @@ def deque_ops(ao):
 
 
 def check_history(ao, hist, ao_ident, expect_all_dispatched=True):
-  """C04 oracles over a finished (quiescent) run.  Returns list of (key, what)."""
+  """C04 oracles over a finished (quiescent) run.  Returns list of (key, what).
+  Behavioural: only post call/return steps, dispatch enter/exit steps and the
+  final queue length are used (the queue operations miros performs are not
+  prescribed); the deque log only adds diagnostics to the message."""
   out = []
   ops = deque_ops(ao)
-  # 1. every returned post realised as exactly one append/appendleft of that item inside [call, ret]
-  by_uid_ops = collections.defaultdict(list)
-  for (step, clock, who, did, op, item, ln) in ops:
-    if op in ('append', 'appendleft') and item is not None and getattr(item, 'signal_name', None) == 'EVT':
-      by_uid_ops[item.payload].append((step, op))
-  for p in hist.posts:
-    if p['ret'] is None:
-      continue
-    lst = by_uid_ops.get(p['uid'], [])
-    want = 'append' if p['kind'] == 'fifo' else 'appendleft'
-    if len(lst) != 1:
-      out.append(('C04/post-not-one-queue-insert', 'post of event %s (%s) produced %d queue insertions %r' % (p['uid'], p['kind'], len(lst), lst)))
-    elif lst[0][1] != want:
-      out.append(('C04/post-at-wrong-end', '%s post of event %s was realised as %s' % (p['kind'], p['uid'], lst[0][1])))
-    elif not (p['call'] <= lst[0][0] <= p['ret']):
-      out.append(('C04/insert-outside-call', 'insertion of event %s at step %d outside its post call [%d,%d]' % (p['uid'], lst[0][0], p['call'], p['ret'])))
-  # 2. dispatch sequence == sequence of popped items, each pop dispatched before the next pop
-  pops = [(step, item) for (step, clock, who, did, op, item, ln) in ops if op in ('popleft', 'pop') and getattr(item, 'signal_name', None) == 'EVT']
-  wrong_end = [1 for (step, clock, who, did, op, item, ln) in ops if op == 'pop']
-  if wrong_end:
-    out.append(('C04/pop-from-back', 'the consumer popped from the back of the queue'))
   dseq = [d['uid'] for d in hist.dispatch if d['sig'] == 'EVT']
-  if dseq != [it.payload for _, it in pops]:
-    out.append(('C04/dispatch-differs-from-pops', 'dispatched %r, popped %r' % (dseq[:12], [it.payload for _, it in pops][:12])))
-  # deque-model replay: a popleft must return the front of the model
-  model = collections.deque()
-  for (step, clock, who, did, op, item, ln) in ops:
-    if op == 'append':
-      model.append(item)
-    elif op == 'appendleft':
-      model.appendleft(item)
-    elif op == 'popleft':
-      if not model or model.popleft() is not item:
-        out.append(('C04/pop-not-front', 'popleft returned an item that is not the front of the replayed deque'))
-        break
-    elif op == 'pop':
-      if model:
-        model.pop()
-    elif op == 'rotate':
-      model.rotate(item)
-    elif op == 'clear':
-      model.clear()
-  # 3. exactly once
+  denter = {}
+  for d in hist.dispatch:
+    if d['sig'] == 'EVT':
+      denter.setdefault(d['uid'], d['enter'])
+  # 1. exactly once
   cnt = collections.Counter(dseq)
   dup = [u for u, c in cnt.items() if c > 1]
   if dup:
@@ -142,26 +108,40 @@ def check_history(ao, hist, ao_ident, expect_all_dispatched=True):
   if expect_all_dispatched:
     missing = [u for u in posted if cnt.get(u, 0) == 0]
     if missing:
-      pend = len(ao.locking_deque.deque)
+      pend = len(ao.queue)
       out.append(('C04/posted-never-dispatched' if not pend else 'C04/lost-wakeup-events-left-in-queue',
                   'posted events %r were never dispatched (queue holds %d events, %d tokens) although no thread has work left' % (missing[:6], pend, ds._q.Queue.qsize(ao.locking_deque.locking_queue))))
-  phantom = [u for u in dseq if u not in set(p['uid'] for p in hist.posts)]
+  known = set(p['uid'] for p in hist.posts)
+  phantom = [u for u in dseq if u not in known]
   if phantom:
     out.append(('C04/phantom-dispatch', 'dispatched events %r that were never posted' % phantom[:5]))
-  # 4. per-poster fifo order
+  # 2. queue discipline, stated over call/return and dispatch steps only.  F "was waiting during" a post P when F's
+  #    post returned before P's call started and F left the queue after P's call returned.
   pos = {u: i for i, u in enumerate(dseq)}
-  byp = collections.defaultdict(list)
-  for p in hist.posts:
-    if p['kind'] == 'fifo' and p['ret'] is not None and p['uid'] in pos:
-      byp[p['poster']].append(p)
-  for who, lst in byp.items():
-    if who == 'handler':
+  # when an event left the queue: observed on the logging deque (whatever operation removed it); the dispatch is later
+  removed = {}
+  for (step, clock, who, did, op, item, ln) in ops:
+    if op in ('popleft', 'pop') and getattr(item, 'signal_name', None) == 'EVT':
+      removed.setdefault(item.payload, step)
+  done = [p for p in hist.posts if p['ret'] is not None and p['uid'] in pos and cnt[p['uid']] == 1]
+  for P in done:
+    for F in done:
+      if F is P or F['ret'] >= P['call']:
+        continue
+      if P['kind'] == 'fifo':
+        # everything posted before a fifo post is ahead of it
+        if pos[F['uid']] > pos[P['uid']]:
+          out.append(('C04/fifo-post-overtook-earlier-event', 'event %s was posted fifo after the post of event %s had returned, but was dispatched before it' % (P['uid'], F['uid'])))
+          break
+      else:
+        # a lifo post goes in front of everything that is waiting during the post
+        if F['uid'] in removed and removed[F['uid']] > P['ret'] and pos[F['uid']] < pos[P['uid']]:
+          out.append(('C04/lifo-post-not-at-front', 'event %s was posted lifo while event %s was waiting in the queue (posted before, taken from the queue after the lifo post returned), but %s was dispatched first' % (P['uid'], F['uid'], F['uid'])))
+          break
+    else:
       continue
-    for a, b in zip(lst, lst[1:]):
-      if pos[a['uid']] > pos[b['uid']]:
-        out.append(('C04/fifo-order-broken', 'poster %s posted %s before %s (both fifo) but %s was dispatched first' % (who, a['uid'], b['uid'], b['uid'])))
-        break
-  # 5. steps never overlap, always on the object's thread
+    break
+  # 3. steps never overlap, always on the object's thread
   ds_sorted = sorted((d for d in hist.dispatch), key=lambda d: d['enter'])
   for a, b in zip(ds_sorted, ds_sorted[1:]):
     if a['exit'] is None or a['exit'] > b['enter']:
@@ -170,4 +150,6 @@ def check_history(ao, hist, ao_ident, expect_all_dispatched=True):
   off = [d['uid'] for d in hist.dispatch if d['thread'] != ao_ident]
   if off:
     out.append(('C04/step-off-thread', 'events %r were dispatched off the active object\'s thread' % off[:5]))
+  if out:
+    out = [(k, w + ' [queue operations: %r]' % [(o[4], getattr(o[5], 'payload', o[5])) for o in ops][-14:]) for k, w in out]
   return out
